@@ -9,7 +9,7 @@ Class invariant INV_model — for all 0 <= k < npt():
   (g) factorisation_current => G.fact_ver == G.geom            (the cached QR belongs to the current geometry)
 """
 import ast, z3
-from pyvc.domains.model import ModelDomain, V, F, vadd_f, vsub_f, vmin_f, vmax_f, hU_f, sumsq_f, mulJ_f, Arr, isnan_f
+from pyvc.domains.model import ModelDomain, V, F, vadd_f, vsub_f, vmin_f, vmax_f, hU_f, sumsq_f, mulJ_f, Arr, isnan_f, rv_f, FINF
 from pyvc.core import Ob, isz, isfp, Opt
 
 MODS = ['self.points', 'self.fval_v', 'self.objval', 'self.nsamples', 'self.eval_num', 'self.kopt', 'self.npt_so_far',
@@ -24,11 +24,14 @@ def build(repo):
     sb['same'] = lambda a, b: same(a, b)
     sb['isnan'] = lambda a: isnan_f(a.val if isinstance(a, Opt) else a)
     sb['vadd'] = lambda a, b: vadd_f(a, b)
+    sb['notposinf'] = lambda a: z3.And(z3.Not(isnan_f(val_(a))), rv_f(val_(a)) < rv_f(FINF))
     sb['vsub'] = lambda a, b: vsub_f(a, b)
     sb['hU'] = lambda a: hU_f(a)
     sb['matvec'] = lambda a, b: mulJ_f(a, b)
     sb['val'] = lambda a: a.val if isinstance(a, Opt) else a
     sb['same_opt'] = same_opt
+    from pyvc.domains.model import ZEROV
+    D.spec_consts = {'zerov': ZEROV}
 
     D.predicate('npt', ['m'], 'min(m.num_pts, m.npt_so_far)')
     D.predicate('Fobj', ['m', 'r', 'xabs'], 'ite(isnone(m.h), sumsq(r), sumsq(r) + hU(xabs))')
@@ -102,7 +105,8 @@ def build(repo):
                         'all other records unchanged:: forall(j, 0, self.num_pts, implies(j != k, rec_unchanged(self, j)))',
                         'self.points[k] == old(self.points[k]) and self.eval_num[k] == old(self.eval_num[k])',
                         ('incumbent is the smallest stored objective (no NaN stored):: implies(forall(k_, 0, npt(self), not isnan(self.objval[k_])), forall(k_, 0, npt(self), self.objval[self.kopt] <= self.objval[k_]))', 'C17', 'C04'),
-                        ('finite incumbent not displaced by NaN:: implies(not isnan(old(self.objval[self.kopt])), not isnan(self.objval[self.kopt]))', 'C08', 'C17'),
+                        ('incumbent is at least as good as every finite stored value (NaN never preferred):: forall(j, 0, npt(self), implies(notposinf(self.objval[j]), '
+                         'not isnan(self.objval[self.kopt]) and self.objval[self.kopt] <= self.objval[j]))', 'C08', 'C17', 'C04'),
                         ] + INV_ENS)
     # ------------------------------------------------------------------ add_new_point
     D.contract('Model.add_new_point', tags=['C17', 'C03', 'C04', 'C08'], params={'x': 'V', 'rvec': 'V', 'eval_num': 'int'},
@@ -167,9 +171,40 @@ def build(repo):
                          '(slot_some(self) and result[5] == val(self.eval_num_save) and same_opt(result[3], self.jacsave))', 'C11'),
                         ('NaN-aware minimum:: implies(not isnan(self.objval[self.kopt]), not isnan(val(result[2])) and val(result[2]) <= self.objval[self.kopt]) and '
                          'implies(not isnone(self.objsave) and not isnan(val(self.objsave)), not isnan(val(result[2])) and val(result[2]) <= val(self.objsave))', 'C04', 'C08', 'C17')])
-    D.verify_list = ['Model.change_point', 'Model.swap_points', 'Model.add_new_sample', 'Model.add_new_point', 'Model.shift_base',
+    # ------------------------------------------------------------------ __init__
+    D.contract('Model.__init__', tags=['C17', 'C03'],
+               params={'npt': 'int', 'x0': 'V', 'r0': 'V', 'xl': 'V', 'xu': 'V', 'projections': 'projlist', 'r0_nsamples': 'int', 'h': 'opt:cb:h',
+                       'n': 'opt:int', 'm': 'opt:int', 'abs_tol': 'fp', 'rel_tol': 'fp', 'x0_eval_num': 'int'},
+               requires=['npt >= 1'],
+               modifies=['self.*', 'G.kmin_ok', 'G.geom', 'G.fact_ver'],
+               ghost_return=[('G.kmin_ok', 'True')],
+               ensures=['first record is x0:: self.points[0] == zerov and self.xbase == x0 and self.fval_v[0] == r0 and self.nsamples[0] == r0_nsamples '
+                        'and self.eval_num[0] == x0_eval_num',
+                        'self.kopt == 0 and self.npt_so_far == 1 and self.num_pts == npt',
+                        'same(self.objval[0], Fobj(self, r0, x0))',
+                        'slot_none(self)', 'isnone(self.model_jac_eval_nums)', 'not self.factorisation_current'] + INV_ENS)
+    # ------------------------------------------------------------------ factorisation / interpolation (bookkeeping only)
+    D.contract('Model.factorise_geom_system', tags=['C16', 'C17'],
+               requires=['INV_model(self)'],
+               modifies=['self.Q', 'self.R', 'self.qr_of_transpose', 'self.left_scaling', 'self.right_scaling', 'self.factorisation_current', 'G.fact_ver'],
+               ghost_return=[('G.fact_ver', 'ite(old(self.factorisation_current), G.fact_ver, G.geom)')],
+               ensures=['self.factorisation_current', 'factorisation is of the current geometry:: G.fact_ver == G.geom'],
+               notes='ghost: the QR computed when the flag was clear is of the current point set (interpolation_matrix() is read in the same call)')
+    D.contract('Model.interpolate_mini_models_svd', tags=['C11', 'C17', 'C16'],
+               requires=['INV_model(self)'],
+               modifies=['self.Q', 'self.R', 'self.qr_of_transpose', 'self.left_scaling', 'self.right_scaling', 'self.factorisation_current', 'G.fact_ver',
+                         'self.model_jac', 'self.model_const', 'self.model_jac_eval_nums'],
+               ensures=[('successful fit is labelled with a snapshot of the evaluation numbers it used:: implies(result[0], not isnone(self.model_jac_eval_nums) '
+                         'and val(self.model_jac_eval_nums) == self.eval_num)', 'C11'),
+                        ('failed fit keeps the previous pair:: implies(not result[0] and not make_full_rank, self.model_jac == old(self.model_jac) and same_opt(self.model_jac_eval_nums, old(self.model_jac_eval_nums)))', 'C11')] + INV_ENS,
+               params={'make_full_rank': 'bool', 'verbose': 'bool', 'get_chg_J': 'bool', 'throw_error_on_nans': 'bool'})
+    D.verify_list = ['Model.__init__', 'Model.factorise_geom_system', 'Model.interpolate_mini_models_svd', 'Model.change_point', 'Model.swap_points', 'Model.add_new_sample', 'Model.add_new_point', 'Model.shift_base',
                      'Model.save_point', 'Model.get_final_results']
     return D
+
+
+def val_(a):
+    return a.val if isinstance(a, Opt) else a
 
 
 def same_opt(a, b):
